@@ -1,4 +1,5 @@
 import Ivg.Lemmas.RendererVM
+import Ivg.Lemmas.RenderHist
 import Ivg.Gen.Tie.Dc1
 import Ivg.Gen.Tie.RendererFields
 import Ivg.Obligations
@@ -239,6 +240,126 @@ example : Body [(.setLOD (Ex.n 32) (Ex.n 64) : Call Num.F32), .startPath 0 (Ex.n
   intro c hc
   exact Option.isNone_iff_eq_none.mp (List.all_eq_true.mp h c hc)
 
+
+/-! ## histories of a reused Renderer
+
+`RenOp α` is a Destination call or `SetRasterizer(_, r)`; `z.runOps` runs a history
+(`Ivg/Lemmas/RenderHist.lean`).  `SetRasterizer` is not an instruction of the specification's machine: it
+changes the height the level-of-detail test uses and the rectangle/transform paints are realised for, and
+nothing else. -/
+section histories
+open Ivg.RenderHist
+
+/-- `SetRasterizer` does not touch the represented machine state (palette, 64+64 registers, selectors, LOD),
+    nor the paint and the `disabled` flag of the current path, nor whether the colour switch of the next
+    `StartPath` disables the path (`choose … .2`: the stops' validity does not depend on the transform). -/
+theorem rast_preserves_machine (z : Renderer α β) (r : Rect) :
+    absVM (z.setRasterizer r) = absVM z ∧ paintSt (z.setRasterizer r) = paintSt z ∧
+    ∀ adj, (choose (z.setRasterizer r) adj).2 = (choose z adj).2 :=
+  ⟨abs_setRasterizer z r, paintSt_setRasterizer z r, choose_flag_setRasterizer z r⟩
+
+/-- `every_call_refines` over histories: the machine state a long-lived Renderer represents is the fold of
+    the specification's instructions over the history, `SetRasterizer` being skipped (`vmStepOp`). -/
+theorem history_refines_vm (arc : ArcFn α β) (posInf : α) (h : List (RenOp α)) (z : Renderer α β) :
+    absVM (z.runOps arc posInf h).1 = h.foldl (vmStepOp posInf) (absVM z) :=
+  runOps_abs arc posInf h z
+
+/-- Styling calls are unaffected by `SetRasterizer`: each of the six (including `Reset`) commutes with it —
+    the same state whichever comes first, and no rasteriser call. -/
+theorem styling_comm_rast (arc : ArcFn α β) (posInf : α) (z : Renderer α β) (r : Rect) (c : Call α)
+    (hc : isStyling c = true) :
+    (z.setRasterizer r).step arc posInf c = ((z.step arc posInf c).1.setRasterizer r, []) :=
+  RenderHist.styling_comm_rast arc posInf z r c hc
+example : isStyling (.reset defaultViewBox defaultPalette : Call Num.F32) = true := rfl
+
+/-- Clause "level-of-detail bounds tested against the raster height … when the path starts", after
+    `SetRasterizer r`: `StartPath` follows the machine's `paintChoice` evaluated at the height of `r`
+    (normalised as `SetRasterizer` does), in the UNCHANGED machine state of `z`; the rasteriser is reset to
+    the size of `r`. -/
+theorem startPath_after_rast (z : Renderer α β) (r : Rect) (adj : UInt8) (x y : α) :
+    match (absVM z).paintChoice (Rect.norm r).dy adj with
+    | some p => (z.setRasterizer r).startPath adj x y =
+        (started (z.setRasterizer r) (realise (z.setRasterizer r) p) x y,
+          [.reset (Rect.norm r).dx (Rect.norm r).dy,
+           .moveTo ((z.setRasterizer r).absX x) ((z.setRasterizer r).absY y)])
+    | none => (z.setRasterizer r).startPath adj x y =
+        ({ z.setRasterizer r with fill := (choose (z.setRasterizer r) adj).1, disabled := true }, []) :=
+  RenderHist.startPath_after_rast z r adj x y
+
+/-- … enabled exactly when the machine prescribes a paint at the height of `r`. -/
+theorem startPath_after_rast_enabled_iff (z : Renderer α β) (r : Rect) (adj : UInt8) (x y : α) :
+    ((z.setRasterizer r).startPath adj x y).1.disabled = false ↔
+      ((absVM z).paintChoice (Rect.norm r).dy adj).isSome = true :=
+  RenderHist.startPath_after_rast_enabled_iff z r adj x y
+
+/-- What a prescribed paint is realised as depends on the CURRENT rectangle and viewBox only
+    (`realiseAt`, `gradMatrixAt`: specification-level data, no Renderer state): in every state whose
+    transform is the recalculated one (every state after a `SetRasterizer` or `Reset`,
+    `C05.transform_invariant`), and in particular right after `SetRasterizer r`, whatever scale `z` had. -/
+theorem realise_current (z : Renderer α β) :
+    (TransformOK z → realise z = realiseAt z.r z.viewBox) ∧
+    ∀ r g, pix2Grad (z.setRasterizer r) g = gradMatrixAt (Rect.norm r) z.viewBox g :=
+  ⟨realise_of_transformOK z, gradient_matrix_after_rast z⟩
+example : TransformOK Ex.z24 := transformOK_reset _ _ _ _
+
+/-- … over histories: after ANY history `h`, `SetRasterizer r`, and any calls other than `Reset` (register
+    loads, earlier paths — a gradient realised for an earlier path is never reused), every paint is realised
+    for `r` and the viewBox of the last `Reset`. -/
+theorem realise_after_rast (arc : ArcFn α β) (posInf : α) (z0 : Renderer α β)
+    (h : List (RenOp α)) (r : Rect) (cs : List (Call α)) (hcs : ∀ c ∈ cs, isReset c = false) :
+    let z := (z0.runOps arc posInf (h ++ .rast r :: cs.map .call)).1
+    realise z = realiseAt (Rect.norm r) (viewBoxAfter z0.viewBox h) ∧
+    ∀ g, pix2Grad z g = gradMatrixAt (Rect.norm r) (viewBoxAfter z0.viewBox h) g :=
+  RenderHist.gradient_uses_current_transform arc posInf z0 h r cs hcs
+example : ∀ c ∈ [(.setNReg 0 true (Ex.n 1) : Call Num.F32), .startPath 0 (Ex.n 0) (Ex.n 0), .closeEnd],
+    isReset c = false := by decide
+
+/-- **Headline over histories, general form.**  `HBody`: register-setting calls, `Reset`, `SetRasterizer`
+    and complete paths in any order and number (several graphics, each at its own size; `SetRasterizer` also
+    between the paths of one graphic).  `paintsH` is the specification side: machine state, target rectangle
+    (changed by `SetRasterizer`) and viewBox (changed by `Reset`) threaded through the events; each
+    `StartPath` contributes the paint the machine prescribes AT THE HEIGHT OF THE CURRENT RECTANGLE, realised
+    for the current rectangle and viewBox.  From any state with the recalculated transform the `Draw` calls
+    are, in order, exactly these — each over the rectangle current at its `StartPath`. -/
+theorem body_refines_hist (arc : ArcFn α β) (hArc : ArcPure arc) (posInf : α) (h : List (RenOp α))
+    (hb : HBody h) (z : Renderer α β) (hz : TransformOK z) :
+    drawsOf (z.runOps arc posInf h).2 = paintsH posInf z.r z.viewBox (absVM z) h :=
+  RenderHist.body_refines_hist arc hArc posInf h hb z hz
+
+/-- **`render_refines_vm` over histories**, from ANY state `z0` (any earlier history): after `Reset vb pal`
+    nothing of `z0` but its rectangle matters … -/
+theorem render_refines_vm_hist (arc : ArcFn α β) (hArc : ArcPure arc) (posInf : α) (z0 : Renderer α β)
+    (vb : ViewBox α) (pal : Palette) (h : List (RenOp α)) (hb : HBody h) :
+    drawsOf (z0.runOps arc posInf (.call (.reset vb pal) :: h)).2 =
+      paintsH posInf z0.r vb (VM.init posInf pal) h :=
+  RenderHist.render_refines_vm_hist arc hArc posInf z0 vb pal h hb
+
+/-- … after `SetRasterizer r` the machine state and viewBox of `z0` are kept, its rectangle and transform
+    are not … -/
+theorem render_refines_vm_rast (arc : ArcFn α β) (hArc : ArcPure arc) (posInf : α) (z0 : Renderer α β)
+    (r : Rect) (h : List (RenOp α)) (hb : HBody h) :
+    drawsOf (z0.runOps arc posInf (.rast r :: h)).2 = paintsH posInf (Rect.norm r) z0.viewBox (absVM z0) h :=
+  RenderHist.render_refines_vm_rast arc hArc posInf z0 r h hb
+
+/-- … and the documented life: ANY earlier history `A`, then `SetRasterizer r; Reset vb pal; h` — the draws
+    after those of `A` are a function of `r`, `vb`, `pal` and `h` alone. -/
+theorem render_refines_vm_reuse (arc : ArcFn α β) (hArc : ArcPure arc) (posInf : α) (z0 : Renderer α β)
+    (A : List (RenOp α)) (r : Rect) (vb : ViewBox α) (pal : Palette) (h : List (RenOp α)) (hb : HBody h) :
+    drawsOf (z0.runOps arc posInf (A ++ .rast r :: .call (.reset vb pal) :: h)).2 =
+      drawsOf (z0.runOps arc posInf A).2 ++ paintsH posInf (Rect.norm r) vb (VM.init posInf pal) h :=
+  RenderHist.render_refines_vm_reuse arc hArc posInf z0 A r vb pal h hb
+set_option maxRecDepth 100000 in
+/-- a life with a path outside the LOD range at height 24, then inside it after `SetRasterizer` to height 48
+    between two paths of the same graphic, the same size at another origin, and the same icon again at 24:
+    the specification prescribes nothing for the first path and one paint over each later rectangle -/
+example : HBody RenderHist.Ex.hist ∧ ArcPure arcF32 ∧
+    (paintsH (β := Num.F64) Ex.posInf (⟨0, 0, 0, 0⟩ : Rect) (Renderer.zero : Renderer Num.F32 Num.F64).viewBox
+      (absVM (Renderer.zero : Renderer Num.F32 Num.F64)) RenderHist.Ex.hist).map (·.1) =
+      [⟨0, 0, 48, 48⟩, ⟨100, 100, 148, 148⟩, ⟨0, 0, 24, 24⟩] :=
+  ⟨RenderHist.Ex.hist_ok, arcF32_pure, RenderHist.Ex.hist_spec⟩
+
+end histories
+
 /-!
 ## Not proved here
 
@@ -252,6 +373,10 @@ example : Body [(.setLOD (Ex.n 32) (Ex.n 64) : Call Num.F32), .startPath 0 (Ex.n
 * "the machine still leaves drawing mode": the mode is decoder state (independent of the
   Destination); on the Renderer side this is `path_silent` (only `fill`/`disabled` change) together
   with `render_refines_vm` for the calls that follow.
+* Histories (`HBody`): `SetRasterizer` is allowed between register-setting calls, `Reset`s and complete
+  paths.  A history that ends inside a path, or calls `SetRasterizer` inside a path, is covered call by call
+  (`rast_preserves_machine`, `history_refines_vm`, `startPath_after_rast`, `C05.draw_uses_current_rect`)
+  but not by `render_refines_vm_hist`.
 * The pixel-space matrix of a gradient (`pix2Grad`) is taken from the code; its agreement with the
   specification's appendix is not part of C04.
 * The stop-colour condition follows the property text ("non-premultiplied"); the specification says
@@ -268,5 +393,9 @@ end Ivg.Props.C04
   Ivg.Props.C04.no_paint_causes, Ivg.Props.C04.gradient_validity, Ivg.Props.C04.gradient_paint,
   Ivg.Props.C04.disabled_silent, Ivg.Props.C04.path_silent, Ivg.Props.C04.path_drawn_once,
   Ivg.Props.C04.render_refines_vm, Ivg.Props.C04.render_refines_vm_open, Ivg.Props.C04.render_blocks, Ivg.Props.C04.all_none_silent,
+  Ivg.Props.C04.rast_preserves_machine, Ivg.Props.C04.history_refines_vm, Ivg.Props.C04.styling_comm_rast,
+  Ivg.Props.C04.startPath_after_rast, Ivg.Props.C04.startPath_after_rast_enabled_iff,
+  Ivg.Props.C04.realise_current, Ivg.Props.C04.realise_after_rast, Ivg.Props.C04.body_refines_hist,
+  Ivg.Props.C04.render_refines_vm_hist, Ivg.Props.C04.render_refines_vm_rast, Ivg.Props.C04.render_refines_vm_reuse,
   Ivg.Lemmas.RendererVM.arcF32_pure,
   Ivg.Gen.Tie.renderer_fields_tie, Ivg.Gen.Tie.dc1Table_tie]
